@@ -223,3 +223,573 @@ def c05(obs, act, viols, probes):
                       expected=[list(x) for x in de][:6]))
   for k in m.probe:
     probes['m_' + k] = probes.get('m_' + k, 0) + m.probe[k]
+
+
+# ----------------------------------------------------------------- helpers
+def phase_roles(spec):
+  """phase name -> 'teardown' if it sits under some group's teardown, else 'abortable'."""
+  roles = {}
+
+  def walk(nodes, td):
+    for n in nodes or []:
+      t = n['t']
+      if t == 'phase':
+        roles[n['name']] = 'teardown' if td else 'abortable'
+      elif t in ('seq', 'subtest', 'branch'):
+        walk(n['nodes'], td)
+      elif t == 'group':
+        walk(n.get('setup'), td)
+        walk(n.get('main'), td)
+        walk(n.get('teardown'), True)
+
+  walk(spec['nodes'], False)
+  if isinstance(spec['test_start'], dict):
+    roles[spec['test_start']['name']] = 'abortable'
+  return roles
+
+
+def first_seq(log, kind, pred=None):
+  for e in log:
+    if e[3] == kind and (pred is None or pred(e)):
+      return e[0]
+  return None
+
+
+def _closest(actual, variants):
+  best, bl = None, -1
+  for v in variants:
+    i = 0
+    while i < len(v) and i < len(actual) and v[i] == actual[i]:
+      i += 1
+    score = i * 1000 - abs(len(v) - len(actual))
+    if score > bl:
+      best, bl = v, score
+  return best
+
+
+def sigint_phase(obs):
+  """Where was execute() when the first SIGINT was delivered to the main thread?
+
+  'startup' (before it first waits for the executor), 'waiting' (inside
+  TestExecutor.wait), 'handler' (inside an earlier SIGINT handler) or
+  'finishing' (after the wait: finalize / output callbacks).
+  """
+  log = obs.log
+  d = None
+  for e in log:
+    if e[3] == 'sigint_delivered':
+      d = e
+      break
+  if d is None:
+    return None
+  fz = first_seq(log, 'enter', lambda e: e[4] == 'finalize' and e[5] == 'test_executor.py')
+  if fz is not None and d[0] > fz:
+    return 'finishing'
+  if d[4] in ('wait', 'join'):
+    return 'waiting'
+  w = first_seq(log, 'enter', lambda e: e[4] == 'wait' and e[5] == 'test_executor.py')
+  if w is None or d[0] < w:
+    return 'startup'
+  return 'finishing'
+
+
+def abort_effective(obs):
+  """Was the test running (executor started / registered) when the first abort arrived?"""
+  ab = obs.spec.get('abort')
+  if not ab:
+    return False
+  log = obs.log
+  if ab['mode'] == 'thread':
+    c = first_seq(log, 'abort_call')
+    st = first_seq(log, 'thread_start', lambda e: e[5] == 'TestExecutorThread')
+    return c is not None and st is not None and st < c
+  for e in log:
+    if e[3] == 'sigint_delivered':
+      return bool(e[6])
+  return False
+
+
+# ------------------------------------------------------------------------ C03
+def c03(obs, act, viols, probes):
+  from wx import model as model_mod
+  if act.rec is None or obs.failed is not None:
+    return
+  ab = obs.spec.get('abort')
+  if ab and ab['count'] > 1:
+    return
+  if obs.model.ambiguous:
+    return
+  if 'runif_reeval' not in obs.extra:
+    obs.extra['runif_reeval'] = runif_reevaluated(obs)
+  if obs.extra['runif_reeval'] is not None:
+    return
+  variants, npoints = model_mod.abort_variants(obs.spec) if ab else ({tuple(obs.model.invocations)}, 0)
+  actual = tuple(act.invocations)
+  roles = phase_roles(obs.spec)
+  if ab:
+    probes['abort_runs'] = probes.get('abort_runs', 0) + 1
+    if actual != tuple(obs.model.invocations):
+      probes['abort_changed_invocations'] = probes.get('abort_changed_invocations', 0) + 1
+    # where did the abort land?
+    ac = first_seq(obs.log, 'abort_call') or first_seq(obs.log, 'sigint_delivered')
+    if ac is not None:
+      open_body = None
+      for e in obs.log:
+        if e[0] > ac:
+          break
+        if e[3] == 'body_start':
+          open_body = e[4]
+        elif e[3] in ('body_end', 'body_exc'):
+          open_body = None
+      if open_body is None:
+        probes['abort_between_phases'] = probes.get('abort_between_phases', 0) + 1
+      elif roles.get(open_body) == 'teardown':
+        probes['abort_during_teardown_phase'] = probes.get('abort_during_teardown_phase', 0) + 1
+      else:
+        probes['abort_during_abortable_phase'] = probes.get('abort_during_abortable_phase', 0) + 1
+  if actual not in variants:
+    close = _closest(actual, variants)
+    missing = [x for x in close if x not in actual]
+    extra = [x for x in actual if x not in close]
+    kind = 'other'
+    if missing and all(roles.get(x[0]) == 'teardown' for x in missing) and not extra:
+      kind = 'teardown_not_run'
+    elif extra and all(roles.get(x[0]) == 'teardown' for x in extra) and not missing:
+      kind = 'teardown_run_unexpectedly'
+    elif len(actual) != len(set(actual)):
+      kind = 'invoked_twice'
+    viols.append(_v('not_a_single_abort_behaviour', kind=kind, aborted=bool(ab),
+                    missing=[list(x) for x in missing][:6], extra=[list(x) for x in extra][:6],
+                    actual=['%s#%d' % x for x in actual][:24]))
+  # ordering: every (non-abandoned) body event precedes plug tearDown
+  td0 = first_seq(obs.log, 'enter', lambda e: e[4] == 'tear_down_plugs')
+  if td0 is not None:
+    late = [e for e in obs.log if e[3] == 'body_start' and e[0] > td0]
+    # tear_down_plugs also runs after a plug constructor failure (before any phase)
+    if late and not any(e[3] == 'plug_ctor_raise' for e in obs.log):
+      viols.append(_v('phase_body_after_plug_teardown', phases=[e[4] for e in late][:4]))
+
+
+# ------------------------------------------------------------------------ C04
+def c04(obs, act, viols, probes):
+  spec = obs.spec
+  ab = spec.get('abort')
+  if not ab:
+    return
+  log = obs.log
+  mode = ab['mode']
+  roles = phase_roles(spec)
+  # the aborts that actually reached TestExecutor.abort(), and when each call returned
+  # (a nested SIGINT handler that raises KeyboardInterrupt cuts the outer one short)
+  req = [e for e in log if e[3] == ('abort_call' if mode == 'thread' else 'sigint_delivered')]
+  calls = [e for e in log if e[3] == 'enter' and e[4] == 'abort' and e[5] == 'test_executor.py']
+  rets = []
+  for c in calls:
+    for e in log:
+      if e[0] > c[0] and e[2] == c[2] and e[3] in ('abort_ret', 'sigint_handler_done'):
+        rets.append(e)
+        break
+  if req and not calls and obs.failed is None:
+    probes['abort_requested_but_executor_abort_never_called'] = probes.get(
+        'abort_requested_but_executor_abort_never_called', 0) + 1
+  sites = list(obs.sim.sigint_sites)
+  site = sites[0][0] if sites else None
+  # (i) liveness
+  sphase = sigint_phase(obs) if mode == 'sigint' else None
+  nested = len(sites) > 1 and any(s_[0] in ('handle_sig_int', 'abort_from_sig_int', 'abort',
+                                            '_stop_phase_executor', 'stop', 'kill', 'async_raise',
+                                            'is_alive', '_is_thread_proc_running', 'has_expired')
+                                  for s_ in sites[1:])
+  if obs.failed in ('deadlock', 'hang'):
+    viols.append(_v('no_return_' + obs.failed, mode=mode, sigint_site=site, sigint_phase=sphase,
+                    nested_sigint=nested,
+                    self_deadlock_of_main=':SELF-DEADLOCK' in (obs.failed_info or '').split('|')[0],
+                    info=(obs.failed_info or '')[:300]))
+    return
+  if obs.failed is not None:
+    return
+  if not calls:
+    probes['abort_never_delivered'] = probes.get('abort_never_delivered', 0) + 1
+    if req and abort_effective(obs) and act.rec is not None and act.outcome == 'PASS':
+      pass
+    return
+  probes['aborts_delivered'] = probes.get('aborts_delivered', 0) + len(calls)
+  if len(calls) > 1:
+    probes['second_abort_delivered'] = probes.get('second_abort_delivered', 0) + 1
+  td_enter = first_seq(log, 'enter', lambda e: e[4] == '_execute_test_teardown')
+  fin_enter = first_seq(log, 'enter', lambda e: e[4] == '_finalize')
+  exec_call = first_seq(log, 'exec_call')
+  r0 = rets[0][0] if rets else None
+  if exec_call is not None and calls[0][0] < exec_call:
+    return  # abort before execute() was even called: nothing to abort
+  if not abort_effective(obs):
+    # the test was not running yet (no executor / not registered for SIGINT):
+    # a plain Ctrl-C before the run; nothing to abort
+    probes['abort_before_test_was_running'] = probes.get('abort_before_test_was_running', 0) + 1
+    return
+  # classify the abort moment (probes)
+  if td_enter is None or calls[0][0] < td_enter:
+    probes['abort_before_final_teardown'] = probes.get('abort_before_final_teardown', 0) + 1
+  elif fin_enter is None or calls[0][0] < fin_enter:
+    probes['abort_during_plug_teardown_or_finalization'] = probes.get('abort_during_plug_teardown_or_finalization', 0) + 1
+  else:
+    probes['abort_after_finalization'] = probes.get('abort_after_finalization', 0) + 1
+  started_before = set(e[4] for e in log if e[3] == 'body_start' and e[0] < calls[0][0])
+  # (ii) nothing new starts once the abort call has returned
+  if r0 is not None:
+    late = [e for e in log if e[3] == 'body_start' and e[0] > r0 and roles.get(e[4]) == 'abortable']
+    if late:
+      e = late[0]
+      # was anything running while the abort call executed?
+      running = None
+      for x in log:
+        if x[0] > calls[0][0]:
+          break
+        if x[3] == 'body_start':
+          running = x[4]
+        elif x[3] in ('body_end', 'body_exc'):
+          running = None
+      reinv = e[5] > 1
+      viols.append(_v('body_started_after_abort_returned', mode=mode, phase=e[4], invocation=e[5],
+                      reinvocation=reinv, body_running_during_abort=running is not None,
+                      n_late=len(late), is_test_start=e[4].endswith('_start'),
+                      sigint_site=site))
+  # (vi) second abort: no body at all starts after it returned
+  if len(rets) > 1:
+    late2 = [e for e in log if e[3] == 'body_start' and e[0] > rets[1][0]]
+    if late2:
+      viols.append(_v('body_started_after_second_abort', phase=late2[0][4], role=roles.get(late2[0][4]),
+                      n_late=len(late2)))
+  # (iv) outcome
+  if act.rec is not None:
+    if r0 is not None and td_enter is not None and r0 < td_enter and act.outcome != 'ABORTED':
+      viols.append(_v('abort_before_final_teardown_but_not_ABORTED', outcome=act.outcome, mode=mode,
+                      sigint_site=site))
+    elif r0 is not None and fin_enter is not None and r0 < fin_enter and act.outcome == 'PASS':
+      viols.append(_v('PASS_although_abort_returned_before_finalization', mode=mode))
+  # (v) callbacks exactly once each (also when KeyboardInterrupt is re-raised)
+  ncb = len(spec['callbacks'])
+  cbs = [e[4] for e in log if e[3] == 'callback']
+  if cbs != list(range(ncb)):
+    kbi_sites = [s_[0] for s_ in sites]
+    viols.append(_v('callbacks_not_exactly_once', called=cbs, expected=ncb, mode=mode, exc=obs.exc,
+                    sigint_site=site, sigint_phase=sphase, sigint_sites=kbi_sites[:3]))
+  if obs.exc not in (None, 'KeyboardInterrupt'):
+    viols.append(_v('execute_raised', exc=obs.exc, msg=obs.extra.get('exc_msg'), mode=mode, sigint_site=site))
+  if obs.exc == 'KeyboardInterrupt' and mode == 'thread':
+    viols.append(_v('execute_raised', exc=obs.exc, mode=mode))
+  # (vii) never two live bodies of one test at once
+  open_bodies = {}   # thread id -> (name, seq)
+  killed = set()
+  for e in log:
+    k = e[3]
+    if k == 'async_exc_set':
+      killed.add(e[4])
+    elif k == 'body_start':
+      others = [(t, b) for t, b in open_bodies.items() if t not in killed]
+      if others:
+        viols.append(_v('two_phase_bodies_at_once', started=e[4], still_running=others[0][1][0]))
+        break
+      open_bodies[e[2]] = (e[4], e[0])
+    elif k in ('body_end', 'body_exc'):
+      open_bodies.pop(e[2], None)
+  # (viii) nothing starts after the record was finalized
+  if fin_enter is not None:
+    late3 = [e for e in log if e[3] == 'body_start' and e[0] > fin_enter]
+    if late3:
+      viols.append(_v('body_started_after_finalization', phase=late3[0][4]))
+  # (iii) single abort: teardown phases of entered groups still ran (membership, as C03)
+  if ab['count'] == 1:
+    before = len(viols)
+    c03(obs, act, viols, {})
+    for v in viols[before:]:
+      v['details']['via'] = 'C04'
+  # plug tearDown still ran for every constructed plug
+  ctor = set(e[5] for e in log if e[3] == 'plug_ctor') - set(e[5] for e in log if e[3] == 'plug_ctor_raise')
+  tds = [e[5] for e in log if e[3] == 'plug_td_start']
+  for sserial in ctor:
+    if tds.count(sserial) != 1:
+      viols.append(_v('plug_teardown_count_after_abort', serial=sserial, count=tds.count(sserial)))
+
+
+# ------------------------------------------------------------------------ C08
+def c08(obs, act, viols, probes):
+  log = obs.log
+  spec = obs.spec
+  if obs.failed in ('deadlock', 'hang'):
+    viols.append(_v('executor_stuck_' + obs.failed, info=(obs.failed_info or '')[:300],
+                    plug_cfg=spec['plug_cfg']))
+    return
+  if obs.failed is not None:
+    return
+  ctors = [e for e in log if e[3] == 'plug_ctor']
+  raised = set(e[5] for e in log if e[3] == 'plug_ctor_raise')
+  by_cls = {}
+  for e in ctors:
+    by_cls.setdefault(e[4], []).append(e[5])
+  for cls, serials in by_cls.items():
+    if len(serials) > 1:
+      viols.append(_v('plug_constructed_more_than_once', cls=cls, times=len(serials)))
+  live = dict((e[4], e[5]) for e in ctors if e[5] not in raised)
+  # same instance under the requested argument name
+  want = {}
+  allph = gen_mod.all_phase_specs(spec) + ([spec['test_start']] if isinstance(spec['test_start'], dict) else [])
+  for ph in allph:
+    want[ph['name']] = ph['plugs']
+  for e in log:
+    if e[3] == 'plug_args':
+      name = e[4]
+      probes['plug_seen'] = probes.get('plug_seen', 0) + 1
+      for (arg, cls, serial) in e[5]:
+        if live.get(cls) != serial:
+          viols.append(_v('phase_got_other_instance', phase=name, arg=arg, cls=cls, got=serial,
+                          constructed=live.get(cls)))
+      if name in want and sorted(want[name]) != sorted(a for (a, _, _) in e[5]):
+        viols.append(_v('phase_plug_arguments', phase=name, expected=sorted(want[name]),
+                        got=sorted(a for (a, _, _) in e[5])))
+      else:
+        from workloads import bodies as _b
+        pool = _b.PLUGS[spec.get('tag', '')]
+        for (arg, cls, serial) in e[5]:
+          if name in want and pool[want[name][arg]].__name__ != cls:
+            viols.append(_v('phase_plug_class', phase=name, arg=arg, got=cls,
+                            expected=pool[want[name][arg]].__name__))
+  # exactly one tearDown per constructed instance
+  tds = [e for e in log if e[3] == 'plug_td_start']
+  for cls, serial in live.items():
+    n = sum(1 for e in tds if e[5] == serial)
+    if n != 1:
+      viols.append(_v('teardown_count', cls=cls, count=n,
+                      ctor_failed_elsewhere=bool(raised), aborted=obs.aborted,
+                      test_start_terminal=obs.model.test_start_terminal))
+  for e in tds:
+    if e[5] in raised:
+      viols.append(_v('teardown_of_unconstructed', cls=e[4]))
+  # after the last phase / test diagnoser, before the first callback
+  if tds:
+    t0 = tds[0][0]
+    last_body = [e for e in log if e[3] in ('body_start', 'diag', 'test_diag') and e[0] > t0]
+    if last_body and not raised:
+      viols.append(_v('teardown_before_last_phase_or_diagnoser', later=[list(x[3:6]) for x in last_body][:3]))
+    cb0 = first_seq(log, 'callback')
+    tl = tds[-1][0]
+    if cb0 is not None and tl > cb0:
+      viols.append(_v('teardown_after_callbacks'))
+  elif live:
+    pass
+  # ctor failure => ERROR and no further phase
+  if raised:
+    probes['ctor_raised'] = probes.get('ctor_raised', 0) + 1
+    r0 = first_seq(log, 'plug_ctor_raise')
+    late = [e for e in log if e[3] == 'body_start' and e[0] > r0]
+    if late:
+      viols.append(_v('phase_after_ctor_failure', phase=late[0][4]))
+    if act.outcome not in ('ERROR',) and not obs.aborted:
+      viols.append(_v('ctor_failure_outcome', outcome=act.outcome))
+  # only test_start's plugs exist while test_start runs
+  ts = spec['test_start']
+  if isinstance(ts, dict):
+    s0 = first_seq(log, 'body_start', lambda e: e[4] == ts['name'])
+    if s0 is not None:
+      pool = set()
+      from workloads import bodies
+      allowed = set(bodies.PLUGS[spec.get('tag', '')][pi].__name__ for pi in ts['plugs'].values())
+      existing = set(e[4] for e in ctors if e[0] < s0)
+      if not existing <= allowed:
+        viols.append(_v('foreign_plug_exists_during_test_start', existing=sorted(existing), allowed=sorted(allowed)))
+      probes['test_start_with_plugs'] = probes.get('test_start_with_plugs', 0) + (1 if allowed else 0)
+  # a failing / abandoned tearDown does not change the outcome
+  faulty = [c for c in spec['plug_cfg'] if c['teardown'] != 'ok']
+  fired = [e for e in log if e[3] == 'plug_td_raise'] or any(c['teardown'] in ('hang', 'hang_u', 'slow') for c in spec['plug_cfg'])
+  if faulty and tds:
+    probes['teardown_fault_fired'] = probes.get('teardown_fault_fired', 0) + 1
+    if exact_ok(obs) and act.outcome not in obs.model.outcomes:
+      viols.append(_v('teardown_fault_changed_outcome', outcome=act.outcome, allowed=sorted(obs.model.outcomes)))
+  if exact_ok(obs) and not faulty and act.rec is not None and act.outcome not in obs.model.outcomes:
+    viols.append(_v('outcome_with_plugs_not_allowed', outcome=act.outcome, allowed=sorted(obs.model.outcomes)))
+
+
+# ------------------------------------------------------------------------ C09
+def record_complete(rec, spec):
+  """Completeness predicate on a final TestRecord; returns list of problems."""
+  bad = []
+  if rec.outcome is None:
+    bad.append('outcome unset')
+  if rec.end_time_millis is None:
+    bad.append('end time unset')
+  elif rec.start_time_millis is None or rec.start_time_millis > rec.end_time_millis:
+    bad.append('start>end')
+  if rec.start_time_millis == 0:
+    bad.append('start time 0')
+  if not rec.dut_id:
+    bad.append('dut_id unset')
+  md = rec.metadata or {}
+  if md.get('test_name') != 'wexec' + spec.get('tag', ''):
+    bad.append('metadata test_name %r' % (md.get('test_name'),))
+  if not isinstance(md.get('config'), dict) or 'station_id' not in md.get('config', {}):
+    bad.append('metadata config snapshot missing')
+  for p in rec.phases:
+    if p.outcome is None:
+      bad.append('phase %s outcome unset' % p.name)
+    if p.result is None:
+      bad.append('phase %s result unset' % p.name)
+    if p.options is None:
+      bad.append('phase %s options unset' % p.name)
+    if p.end_time_millis is None or p.start_time_millis is None:
+      bad.append('phase %s times unset' % p.name)
+    else:
+      if p.start_time_millis > p.end_time_millis:
+        bad.append('phase %s start>end' % p.name)
+      if rec.end_time_millis is not None and p.end_time_millis > rec.end_time_millis:
+        bad.append('phase %s ends after test end (%d > %d)' % (p.name, p.end_time_millis, rec.end_time_millis))
+  return bad
+
+
+def c09(obs, act, viols, probes):
+  log = obs.log
+  spec = obs.spec
+  if obs.failed is not None:
+    if obs.sim.sigint_sites and (sigint_phase(obs) != 'waiting' or any(
+        s_[0] not in ('wait', 'join') for s_ in obs.sim.sigint_sites)):
+      return
+    if obs.failed in ('deadlock', 'hang'):
+      viols.append(_v('execute_never_returned', failed=obs.failed, info=(obs.failed_info or '')[:300],
+                      aborted=obs.aborted,
+                      sigint_site=(obs.sim.sigint_sites[0][0] if obs.sim.sigint_sites else None)))
+    return
+  ncb = len(spec['callbacks'])
+  site = obs.sim.sigint_sites[0][0] if obs.sim.sigint_sites else None
+  if obs.exc not in (None, 'KeyboardInterrupt'):
+    viols.append(_v('execute_raised', exc=obs.exc, msg=obs.extra.get('exc_msg')))
+    return
+  if obs.sim.sigint_sites and (sigint_phase(obs) != 'waiting' or any(
+      s_[0] not in ('wait', 'join') for s_ in obs.sim.sigint_sites)):
+    # a SIGINT handled while the main thread was not waiting for the executor:
+    # those positions are quantified (and their findings owned) by C04
+    probes['sigint_outside_wait_left_to_C04'] = probes.get('sigint_outside_wait_left_to_C04', 0) + 1
+    return
+  if obs.exc == 'KeyboardInterrupt' and obs.aborted and not abort_effective(obs) and not obs.sink:
+    probes['ctrl_c_before_test_was_running'] = probes.get('ctrl_c_before_test_was_running', 0) + 1
+    return
+  cbs = [e[4] for e in log if e[3] == 'callback']
+  if cbs != list(range(ncb)):
+    viols.append(_v('callbacks_not_once_in_order', called=cbs, expected=ncb, exc=obs.exc, sigint_site=site,
+                    raising=[i for i, c in enumerate(spec['callbacks']) if c == 'raise']))
+  if any(c == 'raise' for c in spec['callbacks']):
+    probes['raising_callback'] = probes.get('raising_callback', 0) + 1
+  recs = [r for (_, r) in obs.sink]
+  if recs and any(r is not recs[0] for r in recs):
+    viols.append(_v('callbacks_got_different_records'))
+  if recs:
+    bad = record_complete(recs[0], spec)
+    if bad:
+      viols.append(_v('record_incomplete', problems=bad[:5], aborted=obs.aborted, outcome=act.outcome,
+                      sigint_site=site))
+    if obs.exc is None and (obs.ret is True) != (act.outcome == 'PASS'):
+      viols.append(_v('return_value_vs_outcome', ret=obs.ret, outcome=act.outcome))
+    probes['outcome_' + str(act.outcome)] = probes.get('outcome_' + str(act.outcome), 0) + 1
+  post = obs.post
+  if post:
+    if not post.get('executor_none'):
+      viols.append(_v('executor_left_behind', exc=obs.exc, sigint_site=site))
+    if post.get('state_none') is not True:
+      viols.append(_v('state_not_none_after_execute', state=str(post.get('state_none')), exc=obs.exc,
+                      sigint_site=site))
+    if post.get('instances'):
+      viols.append(_v('still_registered_for_sigint', exc=obs.exc, sigint_site=site))
+    if post.get('record_handlers'):
+      viols.append(_v('record_handler_left_behind', n=post.get('record_handlers'), exc=obs.exc,
+                      sigint_site=site))
+
+
+# ------------------------------------------------------------------------ C12
+def c12(obs, act, viols, probes):
+  log = obs.log
+  spec = obs.spec
+  if obs.failed in ('deadlock', 'hang'):
+    viols.append(_v('executor_did_not_proceed_' + obs.failed, info=(obs.failed_info or '')[:300]))
+    return
+  if obs.failed is not None or act.rec is None or obs.aborted:
+    return
+  specs = dict((ph['name'], ph) for ph in gen_mod.all_phase_specs(spec))
+  if isinstance(spec['test_start'], dict):
+    specs[spec['test_start']['name']] = spec['test_start']
+  # per invocation: start time, end time
+  starts = {}
+  ends = {}
+  for e in log:
+    if e[3] == 'body_start':
+      starts[(e[4], e[5])] = e
+    elif e[3] in ('body_end', 'body_exc'):
+      ends.setdefault((e[4], e[5]), e)
+  # records per phase in order <-> invocations in order
+  recs_by = {}
+  for p in act.rec.phases:
+    recs_by.setdefault(p.name, []).append(p)
+  for name, ph in specs.items():
+    T = ph['opts']['timeout_s'] if ph['opts']['timeout_s'] is not None else 180.0
+    recs = [r for r in recs_by.get(name, []) if result_kind(r.result) != 'SKIP' or True]
+    invs = sorted(k for k in starts if k[0] == name)
+    # records written by skip_phase (subtest failed) have no invocation: align only when counts agree
+    if len(invs) != len(recs):
+      continue
+    for (k, r) in zip(invs, recs):
+      t0 = starts[k][1]
+      te = ends[k][1] if k in ends else None
+      kind = result_kind(r.result)
+      beh = ph['beh'][min(k[1] - 1, len(ph['beh']) - 1)]
+      if te is not None and te < t0 + T - 1e-9:
+        probes['body_ended_before_deadline'] = probes.get('body_ended_before_deadline', 0) + 1
+        if kind == 'TIMEOUT':
+          viols.append(_v('false_timeout', phase=name, invocation=k[1], duration=round(te - t0, 4), timeout_s=T))
+        else:
+          want = None
+          if beh['kind'] == 'ret':
+            want = 'CONTINUE' if beh['val'] == 'NONE' else beh['val']
+          elif beh['kind'] == 'raise':
+            want = 'EXC:' + beh['exc']
+          if want is not None and kind != want and not (
+              kind.startswith('EXC:') and (want == 'FAIL_SUBTEST' or beh['kind'] == 'junk')) and not (
+              kind == 'STOP' and ph['opts']['stop_on_measurement_fail']) and not (
+              kind == 'EXC:OtherExc'):
+            viols.append(_v('own_result_not_kept', phase=name, invocation=k[1], got=kind, want=want))
+      elif te is None or te >= t0 + T + 3.0 - 1e-9:
+        probes['body_running_past_deadline'] = probes.get('body_running_past_deadline', 0) + 1
+        if kind != 'TIMEOUT':
+          viols.append(_v('running_past_deadline_not_timeout', phase=name, invocation=k[1], got=kind,
+                          timeout_s=T, ended=None if te is None else round(te - t0, 4)))
+        else:
+          # the executor proceeds by deadline + join interval
+          nxt = None
+          for e in log:
+            if e[0] > starts[k][0] and e[2] != starts[k][2] and e[3] in (
+                'body_start', 'plug_td_start', 'callback', 'enter', 'test_diag', 'diag', 'run_if'):
+              nxt = e
+              break
+          if nxt is not None and nxt[1] > t0 + T + 3.0 + 1e-6:
+            viols.append(_v('executor_late_after_timeout', phase=name, proceeded_after=round(nxt[1] - t0, 4),
+                            timeout_s=T))
+      else:
+        probes['ended_in_poll_window'] = probes.get('ended_in_poll_window', 0) + 1
+  # first terminal timeout => TIMEOUT outcome, teardown and plug tearDown executed
+  if exact_ok(obs):
+    if act.outcome not in obs.model.outcomes:
+      viols.append(_v('outcome_after_timeout', outcome=act.outcome, allowed=sorted(obs.model.outcomes)))
+    if tuple(act.invocations) != tuple(obs.model.invocations):
+      viols.append(_v('invocations_after_timeout', actual=['%s#%d' % x for x in act.invocations][:20],
+                      expected=['%s#%d' % x for x in obs.model.invocations][:20]))
+  # attribution: nothing an abandoned body does lands in another phase's record
+  for p in act.rec.phases:
+    for an in p.attachments:
+      owner = an.split('_')[1] if an.startswith(('att_', 'late_')) else None
+      if owner is not None and owner != p.name.replace('_start', '') and owner != p.name:
+        viols.append(_v('attachment_in_foreign_phase_record', attachment=an, record=p.name))
+  for l in act.rec.log_records:
+    msg = l.message
+    if 'log ' in msg and ' inv' in msg and '.phase.' in l.logger_name:
+      who = msg.split('log ')[1].split(' ')[0]
+      lname = l.logger_name.split('.phase.')[1].split('.')[0]
+      if who != lname:
+        viols.append(_v('log_attributed_to_other_phase', message=msg[:60], logger=l.logger_name[-40:]))
+  if any(e[3] == 'late_action' for e in log):
+    probes['late_action_by_abandoned_body'] = probes.get('late_action_by_abandoned_body', 0) + 1
